@@ -1,4 +1,6 @@
 import Amgcl.Proofs.Transfer
+import Amgcl.Proofs.CoarseningChecks
+import Mathlib.Algebra.Order.Ring.Defs
 /-!
 # C04 — interpolation is exact on the near-null space; aggregates partition the grid
 
@@ -257,5 +259,92 @@ example : pointwiseAggregates (fun x : Int => if x < 0 then -x else x) 0 2 0
     ⟨6, #[[(0,2),(2,-1)],[(1,2),(3,-1)],[(0,-1),(2,2),(4,-1)],[(1,-1),(3,2),(5,-1)],[(2,-1),(4,2)],[(3,-1),(5,2)]]⟩ =
     .ok ⟨2, #[[false,true],[false,true],[true,false,true],[true,false,true],[true,false],[true,false]],
       #[0,1,0,1,0,1]⟩ := by decide +kernel
+
+/-! ## V-grade (verified checker) parts: Ruge–Stuben row sums, null-space branch of the tentative prolongation
+
+The C/F splitting, the truncation bookkeeping and `detail::QR<double>` are not modelled.  The driver evaluates the
+executable predicates of `Model/CoarseningChecks.lean` on the output of the real code for every explored input;
+the theorems below say what a `true` verdict means.  (Level: translation validation on explored inputs.) -/
+
+section vgrade
+open Finset
+variable {K : Type} [CommRing K] [LinearOrder K] [IsStrictOrderedRing K]
+
+omit [IsStrictOrderedRing K] in
+/-- a `true` verdict of `rsRowSumCheck` on `(A, P)`: `P` is well formed, has as many rows as `A`, and every row of
+`A` with zero row sum and a strong neighbour in the sense of `ruge_stuben::connect` has a row of `P` that sums to
+one (`k` = number of such rows). -/
+theorem rs_rowsum_sound (norm : K → K) (tiny epsStrong : K) (A P : CRS K) (k : Nat)
+    (h : rsRowSumCheck norm tiny epsStrong A P = (true, k)) :
+    P.WF ∧ P.nrows = A.nrows ∧
+    ∀ i, i < A.nrows → rowSumList (A.row i) = 0 → rsHasStrong norm tiny epsStrong i (A.row i) = true →
+      ∑ c ∈ range P.ncols, P.get i c = 1 := by
+  unfold rsRowSumCheck at h
+  simp only [Prod.mk.injEq, Bool.and_eq_true, beq_iff_eq] at h
+  obtain ⟨⟨⟨hwf, hn⟩, hrows⟩, _⟩ := h
+  have hP := wf_of_wfb P hwf
+  refine ⟨hP, hn, fun i hi hz hs => ?_⟩
+  unfold rowSumOneOn at hrows
+  rw [List.all_eq_true] at hrows
+  have hmem : i ∈ rsCheckRows norm tiny epsStrong A := by
+    unfold rsCheckRows
+    rw [List.mem_filter]
+    exact ⟨List.mem_range.2 hi, by simp [hz, hs]⟩
+  have h1 := hrows i hmem
+  simp only [decide_eq_true_eq] at h1
+  rw [← h1]
+  exact (rowSumList_eq_sum (P.row i) P.ncols (crs_row_wf P hP i)).symm
+
+theorem within_iff (tol x : K) : within tol x = true ↔ -tol ≤ x ∧ x ≤ tol := by
+  unfold within
+  simp only [Bool.and_eq_true, Bool.not_eq_eq_eq_not, Bool.not_true, decide_eq_false_iff_not, not_lt]
+  constructor
+  · rintro ⟨h1, h2⟩; exact ⟨by have := neg_le_neg h2; simpa using this, h1⟩
+  · rintro ⟨h1, h2⟩; exact ⟨h2, by have := neg_le_neg h1; simpa using this⟩
+
+/-- a `true` verdict of `reproducesB`: on every aggregated row, `P_tent · B_coarse` equals the supplied near-null-space
+vectors up to `tol` (exactly when `tol = 0`) -/
+theorem reproducesB_sound (tol : K) (cols : Nat) (id : Array Int) (P : CRS K) (hP : P.WF) (Bc B : Array K)
+    (h : reproducesB tol cols id P Bc B = true) :
+    ∀ i, i < id.size → 0 ≤ id.getD i (-1) → ∀ k, k < cols →
+      -tol ≤ (∑ c ∈ range P.ncols, P.get i c * Bc.getD (c * cols + k) 0) - B.getD (i * cols + k) 0 ∧
+      (∑ c ∈ range P.ncols, P.get i c * Bc.getD (c * cols + k) 0) - B.getD (i * cols + k) 0 ≤ tol := by
+  intro i hi h0 k hk
+  unfold reproducesB at h
+  rw [List.all_eq_true] at h
+  have h1 := h i (List.mem_range.2 hi)
+  simp only [Bool.or_eq_true, decide_eq_true_eq] at h1
+  rcases h1 with h1 | h1
+  · omega
+  · rw [List.all_eq_true] at h1
+    have h2 := (within_iff _ _).1 (h1 k (List.mem_range.2 hk))
+    unfold ptentTimesB at h2
+    rw [foldl_weighted (fun c => Bc.getD (c * cols + k) 0) (P.row i) P.ncols (crs_row_wf P hP i)] at h2
+    exact h2
+
+/-- a `true` verdict of `orthonormalCols`: `P_tentᵀ P_tent` is the identity up to `tol` -/
+theorem orthonormalCols_sound (tol : K) (P : CRS K) (h : orthonormalCols tol P = true) :
+    ∀ c c', c < P.ncols → c' < P.ncols →
+      -tol ≤ (∑ i ∈ range P.nrows, P.get i c * P.get i c') - (if c = c' then 1 else 0) ∧
+      (∑ i ∈ range P.nrows, P.get i c * P.get i c') - (if c = c' then 1 else 0) ≤ tol := by
+  intro c c' hc hc'
+  unfold orthonormalCols at h
+  rw [List.all_eq_true] at h
+  have h1 := h c (List.mem_range.2 hc)
+  rw [List.all_eq_true] at h1
+  have h2 := (within_iff _ _).1 (h1 c' (List.mem_range.2 hc'))
+  unfold gramEntry at h2
+  rw [foldl_range_sum (fun i => rowGet (P.row i) c * rowGet (P.row i) c') P.nrows] at h2
+  exact h2
+
+end vgrade
+
+-- non-vacuity: the predicates accept a correct output (1D Neumann Laplacian, C point 1, F points 0 and 2) …
+example : rsRowSumCheck (fun x : ℚ => if x < 0 then -x else x) (1/2) (1/4)
+    ⟨3, #[[(0,1),(1,-1)],[(0,-1),(1,2),(2,-1)],[(1,-1),(2,1)]]⟩ ⟨1, #[[(0,1)],[(0,1)],[(0,1)]]⟩ = (true, 3) := by
+  decide +kernel
+-- … and a two-vector near-null space reproduced exactly by `P_tent = I₂`, `B_coarse = B`
+example : reproducesB (0 : Int) 2 #[0, 0] ⟨2, #[[(0,1),(1,0)],[(0,0),(1,1)]]⟩ #[1,2,3,4] #[1,2,3,4] = true ∧
+    orthonormalCols (0 : Int) ⟨2, #[[(0,1),(1,0)],[(0,0),(1,1)]]⟩ = true := by decide +kernel
 
 end Amgcl.C04
